@@ -416,7 +416,7 @@ def s_units_population(ctx):
         u.mismatches.append(dict(case=cases[i], note="a population member's evaluate differs from the model (or the member recorded another position than the one evaluated)"))
 
 
-POP_ITER = ["ParticleSwarmOptimizer", "SpiralOptimization", "DifferentialEvolutionOptimizer"]
+POP_ITER = ["ParticleSwarmOptimizer", "SpiralOptimization", "DifferentialEvolutionOptimizer", "EvolutionStrategyOptimizer"]
 POP_HDR = ("Require Import Converter CoreOpt Pop.\n"
            "Definition pe := list_eqb Z.eqb.\n"
            "Definition it_ok (r : res (pos * tape * Z)) (p : pos) (n : option Z) : bool := match r with Ok (q, [], m) => pe q p && "
@@ -443,10 +443,10 @@ def s_units_pop_iterate(ctx):
     """every iteration step of ParticleSwarm / Spiral / DifferentialEvolution runs against theories/Pop.v: from the observed
     pre-state, the logged draws and the float vector recomputed by the harness (the model's oracle), the model must return
     the observed position, consume every draw and make the same number of constraint evaluations"""
-    u = ctx.unit("S:iterate (particle swarm, spiral, differential evolution)", "S",
+    u = ctx.unit("S:iterate (particle swarm, spiral, differential evolution, evolution strategy)", "S",
                  "every iteration step of real runs (populations 4-6, coupled constraints -- parity / band / half-space -- to "
                  "force the fallback paths, rand_rest_p up to 0.5, varied hyper-parameters): the model's pso_iterate / "
-                 "spiral_iterate / de_iterate with the logged draws and the harness-recomputed float vector (new velocity, spiral "
+                 "spiral_iterate / de_iterate / es_iterate (population order after the unstable argsort observed) with the logged draws and the harness-recomputed float vector (new velocity, spiral "
                  "point, mutant) must return the observed position, leave no draw and count the same constraint evaluations; "
                  "non-trivial = the first candidate was infeasible or a random restart happened; distinct by (optimizer, seed, step)")
     from props import c02
@@ -523,6 +523,21 @@ def s_units_pop_iterate(ctx):
                     for e in rest:
                         tape += draw_lit(e[0], e[1], e[3])
                     call = "spiral_iterate %s %s 3000 (%s, %s) [%s]" % (sp, cl, cz(rrp[0]), cz(rrp[1]), "; ".join(tape))
+                elif name == "EvolutionStrategyOptimizer":
+                    order = st.get("pop_sorted")
+                    if P > 1 and (order is None or len(order) != P):
+                        raise ValueError("pop_sorted was not observable after the step: %r" % (order,))
+                    curs = [prev["member%d" % j]["pos_current"] for j in (order if P > 1 else [0])]
+                    if any(c_ is None for c_ in curs):
+                        raise ValueError("an individual has no current position yet")
+                    mut = dyadic(float(opt.mutation_rate))
+                    tape = []
+                    for e in draws:
+                        tape += draw_lit(e[0], e[1], e[3])
+                    rrp = dyadic(float(members[0].rand_rest_p))
+                    call = "es_iterate %s %s 3000 (%s, %s) (%s, %s) %s [%s]" % (sp, cl, cz(rrp[0]), cz(rrp[1]), cz(mut[0]), cz(mut[1]),
+                                                                               clist(curs, clist), "; ".join(tape))
+                    who = "self"
                 else:
                     samp = draws[0]
                     idx = samp[3]
